@@ -23,8 +23,9 @@ REPO = os.environ.get("VERIF_REPO", "/repo")
 class Harness:
     def __init__(self, name, fn, quick=None, thorough=None, requires=(), max_paths=(20000, 400000), timeout_ms=(10000, 60000),
                  wall_s=(150, 1500), clock_modules=(), pattern="", doc="", outside=(), assumptions=(), selfcheck=True,
-                 merge_minmax=True, allow_unconfirmed=False):
+                 merge_minmax=True, allow_unconfirmed=False, tiers=("quick", "thorough")):
         self.name = name
+        self.tiers = tuple(tiers)
         self.fn = fn
         self.params = {"quick": quick or {}, "thorough": thorough if thorough is not None else (quick or {})}
         self.requires = list(requires)
@@ -519,6 +520,7 @@ def run_property(pid, harnesses, tier, seed, meta):
     known = load_known()
     results = {}
     with ctxmp.Pool(nworkers, initializer=_worker_init, initargs=(None,), maxtasksperchild=200) as pool:
+        harnesses = [h for h in harnesses if tier in h.tiers]
         for h in harnesses:
             print("[%s] %s (%s) params=%s" % (pid, h.name, tier, h.params[tier]), flush=True)
             tot = explore(h, tier, seed, pool, nworkers)
